@@ -21,6 +21,9 @@ type c9Handler struct {
 	want   []string // expected middleware tags, outermost first
 	traces map[*message.Message][]string
 	added  bool
+	// reborn: registered under the name of a handler that was stopped before; tolerated: that predecessor's own middleware tags
+	reborn    bool
+	tolerated []string
 }
 
 func c09Body(r *Run) {
@@ -74,12 +77,21 @@ func c09Body(r *Run) {
 			}
 		}
 	}
+	// in a third of the random runs the application hands the router subscribers that it has already wrapped in a
+	// MessageTransformSubscriberDecorator of its own
+	preDecorated := !exhaustive && t.Chance(1, 3)
 	addHandler := func(h *c9Handler) {
 		if h.added {
 			return
 		}
 		h.added = true
-		h.h = rig.Router.AddHandler(h.name, "in-"+h.name, h.sub, "out-"+h.name, h.pub, func(m *message.Message) ([]*message.Message, error) {
+		var hsub message.Subscriber = h.sub
+		if preDecorated {
+			hsub, _ = message.MessageTransformSubscriberDecorator(func(m *message.Message) {
+				m.Metadata.Set("subtrace", strings.TrimPrefix(m.Metadata.Get("subtrace")+",app", ","))
+			})(h.sub)
+		}
+		h.h = rig.Router.AddHandler(h.name, "in-"+h.name, hsub, "out-"+h.name, h.pub, func(m *message.Message) ([]*message.Message, error) {
 			h.traces[m] = append(h.traces[m], "handler")
 			o := message.NewMessage(m.UUID+">out", []byte("o"))
 			return []*message.Message{o}, nil
@@ -181,6 +193,7 @@ func c09Body(r *Run) {
 	}
 	r.Describe("registration program (in order): %s; publisher decorators %v; subscriber decorators %v; late handlers %d with %d registrations; failing decorator index %d; early handler stopped meanwhile %d", strings.Join(desc, " "), wantPub, wantSub, nLate, len(lateRegs), failDec, stopEarly)
 
+	rebornStopped := false // hs[0] was stopped so that a new handler could take its name
 	r.Sim.AtEnd(func() {
 		for _, h := range hs {
 			if !h.added {
@@ -194,12 +207,27 @@ func c09Body(r *Run) {
 			for i := len(h.want) - 1; i >= 0; i-- {
 				want = append(want, "leave:"+h.want[i])
 			}
-			stopped := stopEarly >= 0 && h == hs[stopEarly]
-			if len(h.sub.Deliveries) == 0 && !stopped {
+			stopped := (stopEarly >= 0 && h == hs[stopEarly]) || (rebornStopped && h == hs[0])
+			if len(h.sub.Deliveries) == 0 && !stopped && h.sub.Subscribes["in-"+h.name] > 0 {
 				r.Fail("C09.R3", "a started handler received no message", "%s", h.name)
 			}
 			for _, d := range h.sub.Deliveries {
 				got := h.traces[d.Msg]
+				if len(h.tolerated) > 0 {
+					var kept []string
+					for _, g := range got {
+						drop := false
+						for _, tg := range h.tolerated {
+							if g == "enter:"+tg || g == "leave:"+tg {
+								drop = true
+							}
+						}
+						if !drop {
+							kept = append(kept, g)
+						}
+					}
+					got = kept
+				}
 				if stopped && len(got) == 0 {
 					continue // emitted while the handler was being stopped: never handled
 				}
@@ -221,8 +249,12 @@ func c09Body(r *Run) {
 					}
 					r.Fail("C09.R1", sig, "%s message %s: trace %v, expected %v", h.name, d.Msg.UUID, got, want)
 				}
-				if st := d.Msg.Metadata.Get("subtrace"); st != strings.Join(wantSub, ",") {
-					r.Fail("C09.R2", "subscriber decorators did not act on incoming messages in the order they were added", "%s message %s: %q expected %q", h.name, d.Msg.UUID, st, strings.Join(wantSub, ","))
+				wantTrace := strings.Join(wantSub, ",")
+				if preDecorated {
+					wantTrace = strings.TrimSuffix("app,"+wantTrace, ",")
+				}
+				if st := d.Msg.Metadata.Get("subtrace"); st != wantTrace {
+					r.Fail("C09.R2", "subscriber decorators did not act on incoming messages in the order they were added", "%s message %s: %q expected %q", h.name, d.Msg.UUID, st, wantTrace)
 				}
 			}
 			for _, c := range h.pub.Calls {
@@ -303,6 +335,48 @@ func c09Body(r *Run) {
 		}
 	}
 	r.Sim.Quiesce()
+	// in a third of the random runs a handler is stopped and, once Stopped() is closed, a new handler is registered under
+	// the same name with middlewares of its own: it runs the router-level ones plus its own new ones (whether those of
+	// its predecessor of the same name still apply is not specified: they are tolerated, not demanded)
+	others := nH + nLate - 1
+	if stopEarly > 0 {
+		others--
+	}
+	// (another handler keeps running meanwhile: a router whose last handler ends closes itself)
+	if !exhaustive && stopEarly != 0 && others >= 1 && t.Chance(1, 3) {
+		old := hs[0]
+		r.Fault("handler-stopped-and-registered-again-under-its-name")
+		old.h.Stop()
+		<-old.h.Stopped()
+		h2 := &c9Handler{name: old.name, traces: map[*message.Message][]string{}, reborn: true}
+		h2.sub = NewScriptedSubscriber(r, old.name+"-sub2")
+		h2.sub.Script["in-"+old.name] = []ScriptMsg{{UUID: old.name + "-again-m0", Payload: "x"}, {UUID: old.name + "-again-m1", Payload: "y"}}
+		h2.pub = NewScriptedPublisher(r, old.name+"-pub2")
+		hs = append(hs, h2)
+		addHandler(h2)
+		h2.want = append(h2.want, routerTags...)
+		for k := 0; k < 2; k++ {
+			tag := fmt.Sprintf("again%d", k)
+			h2.h.AddMiddleware(mkMW(tag))
+			h2.want = append(h2.want, tag)
+		}
+		for _, tg := range old.want {
+			isRouter := false
+			for _, rt := range routerTags {
+				if rt == tg {
+					isRouter = true
+				}
+			}
+			if !isRouter {
+				h2.tolerated = append(h2.tolerated, tg)
+			}
+		}
+		rebornStopped = true
+		if err := rig.Router.RunHandlers(rig.ctx); err != nil {
+			r.Probe("runhandlers-error")
+		}
+		r.Sim.Quiesce()
+	}
 	rig.Router.Close()
 }
 
